@@ -31,6 +31,38 @@ def alias_groups(src):
     return groups
 
 
+
+def jw_sign_rule(chk, src):
+    """exhaustive evaluation of the sign exponent of table_row_swapped_jw over its finite input space"""
+    from ..syminterp import SymInterp
+    fi = src.func("renormalizer/mps/symbolic_mpo.py", "table_row_swapped_jw")
+    defs = [s_ for s_ in ast.walk(fi.node) if isinstance(s_, ast.Assign) and unparse(s_.targets[0]) == "n_permutes"]
+    cdef = [s_ for s_ in ast.walk(fi.node) if isinstance(s_, ast.Assign) and unparse(s_.targets[0]) == "coeff"]
+    zdef = [s_ for s_ in ast.walk(fi.node) if isinstance(s_, ast.Assign) and unparse(s_.targets[0]) == "op2_new_sigma_z"]
+    if len(defs) != 1 or len(cdef) != 1 or not zdef:
+        raise AnalysisError(f"{fi.where}: n_permutes / coeff definitions not found")
+    names = sorted({n.id for n in ast.walk(defs[0].value) if isinstance(n, ast.Name)})
+    if names != ["op1_n_sigma_minus", "op1_n_sigma_plus", "op2_new_sigma_z"]:
+        raise AnalysisError(f"{fi.where}: n_permutes depends on {names}")
+    it = SymInterp(src, None, {})
+    bad = []
+    for z in (0, 1):
+        for p_ in (0, 1):
+            for m in (0, 1):
+                env = {"op2_new_sigma_z": z, "op1_n_sigma_plus": p_, "op1_n_sigma_minus": m}
+                got = it.ev(defs[0].value, env)
+                env["n_permutes"] = got
+                sign = it.ev(ast.parse("(-1) ** n_permutes", mode="eval").body, env) if unparse(cdef[0].value).replace(" ", "") == "(-1)**n_permutes" else None
+                want = (-1) ** (z * (p_ + m))
+                if sign != want:
+                    bad.append(f"sigma_z moved={z}, sigma_+ count={p_}, sigma_- count={m}: sign {sign}, expected {want}")
+    chk.ob("jw-sign-parity", "table_row_swapped_jw: sign = (-1)^(moved sigma_z * number of ladder operators passed)", not bad, fi.where, bad or "8 combinations", "(-1) ** (z * (n_plus + n_minus))",
+           line=defs[0].lineno, detail="the string sigma_z anticommutes with each sigma_+ / sigma_- it is moved past: an operator holding both (a number operator) gives no sign: " + (bad[0] if bad else ""))
+    # the moved sigma_z count is reduced modulo two
+    zt = unparse(zdef[-1].value).replace(" ", "")
+    chk.ob("jw-sign-parity", "moved sigma_z count is taken modulo 2", "%2" in zt, fi.where, zt, "... % 2", line=zdef[-1].lineno)
+
+
 def run(chk):
     src = chk.src
     chk.explanation = (
@@ -47,6 +79,8 @@ def run(chk):
     chk.rule("jw-vocabulary", "table_row_swapped_jw recognises the spin-symbol spellings produced by generate_ladder_operator / simplify_op", 3)
     chk.rule("jw-flag", "state side and operator side read the same Jordan-Wigner flag", 2)
     chk.rule("qc-term-coverage", "qc_model: both integral index sets feed the term list in both layouts", 4)
+    chk.rule("jw-sign-parity", "Jordan-Wigner sign of an operator-side site swap over its whole (finite) input space", 2)
+    jw_sign_rule(chk, src)
     chk.table("update_mps_callers", {f"{k[0]}::{k[1]}": v for k, v in UPDATE_CALLERS.items()})
     # ---- ofs-pair
     seen = 0
